@@ -6,6 +6,7 @@ import (
 	"crypto/ecdsa"
 	"crypto/ed25519"
 	"crypto/elliptic"
+	crand "crypto/rand"
 	"crypto/rsa"
 	"errors"
 	"fmt"
@@ -176,6 +177,106 @@ func runC10(c *Collector, r *Rng, thorough bool) {
 			addCase(c, "refuse-payloadless", op, obs, true)
 			if !errors.Is(err, cose.ErrMissingPayload) || len(sg.calls) > 0 {
 				c.Fail("C10/payloadless-parent", "payload-less parent not refused with ErrMissingPayload", map[string]any{"op": trunc(op, 700)})
+			}
+		}
+	}
+	// a parent decoded with a list of three different countersignatures: each entry, used on its own, hands the verifier
+	// the structure over its own protected bytes and its own signature
+	for _, label := range []int64{7, 11} {
+		var ents []*W
+		for e := 0; e < 3; e++ {
+			ents = append(ents, wArr(-1, wBstr(wMap(-1, wInt(1, -1), wInt(-7, -1), wInt(4, -1), wBstr([]byte{byte('a' + e)}, -1)).Ser(), -1), wMap(-1), wBstr([]byte{byte(0x30 + e), 0xee}, -1)))
+		}
+		pcontent := wMap(-1, wInt(1, -1), wInt(-7, -1)).Ser()
+		data := wTag(18, -1, wArr(-1, wBstr(pcontent, -1), wMap(-1, wInt(label, -1), wArr(-1, ents...)), wBstr([]byte("p"), -1), wBstr([]byte{1, 2}, -1))).Ser()
+		var m cose.Sign1Message
+		if err := m.UnmarshalCBOR(data); err == nil {
+			if list, ok := m.Headers.Unprotected[label].([]*cose.Countersignature); ok {
+				ext := []byte("x")
+				for e, cs := range list {
+					if e >= len(ents) || cs == nil {
+						continue
+					}
+					vf := &spyVerifier{alg: -7}
+					cs.Verify(vf, &m, ext)
+					c.Eval("cverify/decoded-list", fmt.Sprint(label, e), true)
+					want := refArray(refTstr("CounterSignatureV2"), refBstr(pcontent), refBstr(ents[e].Kids[0].Str), refBstr(ext), refBstr([]byte("p")), refArray(refBstr([]byte{1, 2})))
+					if len(vf.calls) != 1 || !bytes.Equal(vf.calls[0].content, want) || !bytes.Equal(vf.calls[0].sig, ents[e].Kids[2].Str) {
+						c.Fail("C10/structure", fmt.Sprintf("entry %d of a decoded list of countersignatures: the verifier was handed %x with signature %x; the entry on the wire has protected bytes %x and signature %x", e, vfirst(vf), vsig(vf), ents[e].Kids[0].Str, ents[e].Kids[2].Str), map[string]any{"data": hx(data), "entry": e})
+					}
+				}
+			}
+		}
+	}
+	// one parent object, passed by pointer, edited between two uses (payload replaced, signature replaced, a protected
+	// parameter changed, the signature removed): the second structure is over the parent as it is now
+	for _, kindName := range []string{"COSE_Sign1", "COSE_Sign", "COSE_Signature", "COSE_Countersignature"} {
+		for _, edit := range []string{"payload", "signature", "protected", "unsigned"} {
+			s1 := &cose.Sign1Message{Headers: cose.Headers{Protected: cose.ProtectedHeader{cose.HeaderLabelAlgorithm: cose.AlgorithmES256, int64(4): []byte("k0")}}, Payload: []byte("payload-0"), Signature: []byte{1, 1}}
+			sm := &cose.SignMessage{Headers: cose.Headers{Protected: cose.ProtectedHeader{int64(4): []byte("k0")}}, Payload: []byte("payload-0"), Signatures: []*cose.Signature{{Headers: cose.Headers{Protected: cose.ProtectedHeader{cose.HeaderLabelAlgorithm: cose.AlgorithmES256}}, Signature: []byte{2, 2}}}}
+			sg := &cose.Signature{Headers: cose.Headers{Protected: cose.ProtectedHeader{cose.HeaderLabelAlgorithm: cose.AlgorithmES256, int64(4): []byte("k0")}}, Signature: []byte{3, 3}}
+			cp := &cose.Countersignature{Headers: cose.Headers{Protected: cose.ProtectedHeader{cose.HeaderLabelAlgorithm: cose.AlgorithmES256, int64(4): []byte("k0")}}, Signature: []byte{4, 4}}
+			var parent any
+			var apply func()
+			switch kindName {
+			case "COSE_Sign1":
+				parent = s1
+				apply = map[string]func(){"payload": func() { s1.Payload = []byte("payload-1") }, "signature": func() { s1.Signature = []byte{9, 9} }, "protected": func() { s1.Headers.Protected[int64(4)] = []byte("k1") }, "unsigned": func() { s1.Signature = nil }}[edit]
+			case "COSE_Sign":
+				parent = sm
+				apply = map[string]func(){"payload": func() { sm.Payload = []byte("payload-1") }, "signature": nil, "protected": func() { sm.Headers.Protected[int64(4)] = []byte("k1") }, "unsigned": func() { sm.Signatures = nil }}[edit]
+			case "COSE_Signature":
+				parent = sg
+				apply = map[string]func(){"payload": nil, "signature": func() { sg.Signature = []byte{9, 9} }, "protected": func() { sg.Headers.Protected[int64(4)] = []byte("k1") }, "unsigned": func() { sg.Signature = nil }}[edit]
+			default:
+				parent = cp
+				apply = map[string]func(){"payload": nil, "signature": func() { cp.Signature = []byte{9, 9} }, "protected": func() { cp.Headers.Protected[int64(4)] = []byte("k1") }, "unsigned": func() { cp.Signature = nil }}[edit]
+			}
+			if apply == nil {
+				continue
+			}
+			ext := []byte("x")
+			holder := func() *cose.Countersignature {
+				return &cose.Countersignature{Headers: cose.Headers{Protected: cose.ProtectedHeader{cose.HeaderLabelAlgorithm: cose.AlgorithmES256}}}
+			}
+			h1 := holder()
+			g1 := &spySigner{alg: -7, kind: SOk, sig: []byte{7, 7}}
+			if err := h1.Sign(nil, g1, parent, ext); err != nil {
+				continue
+			}
+			cose.Countersign0(nil, &spySigner{alg: -7, kind: SOk, sig: []byte{7}}, parent, ext)
+			h1.Verify(&spyVerifier{alg: -7}, parent, ext)
+			apply()
+			rep := map[string]any{"parent": kindName, "edit": edit}
+			c.Eval("csign/pointer-parent-edited/"+kindName, edit, true)
+			sp, _ := refProtectedBstr(&h1.Headers)
+			want, werr := refCountersign(false, parent, sp, ext)
+			want0, _ := refCountersign(true, parent, []byte{0x40}, ext)
+			// verify the earlier countersignature, sign a new one, abbreviated form
+			vf := &spyVerifier{alg: -7}
+			verr := h1.Verify(vf, parent, ext)
+			h2 := holder()
+			g2 := &spySigner{alg: -7, kind: SOk, sig: []byte{8, 8}}
+			serr := h2.Sign(nil, g2, parent, ext)
+			g0 := &spySigner{alg: -7, kind: SOk, sig: []byte{8}}
+			_, err0 := cose.Countersign0(nil, g0, parent, ext)
+			if edit == "unsigned" {
+				if verr == nil || serr == nil || err0 == nil || len(vf.calls)+len(g2.calls)+len(g0.calls) > 0 {
+					c.Fail("C10/unsigned-parent-accepted", fmt.Sprintf("a parent whose signature was removed after an earlier countersigning is still accepted: Verify=%v Sign=%v Countersign0=%v, keys invoked %d times", verr, serr, err0, len(vf.calls)+len(g2.calls)+len(g0.calls)), rep)
+				}
+				continue
+			}
+			if werr != nil {
+				continue
+			}
+			if len(vf.calls) != 1 || !bytes.Equal(vf.calls[0].content, want) {
+				c.Fail("C10/structure", fmt.Sprintf("the parent's %s was changed between two uses of the same parent object: the verifier was handed %x, the structure over the parent as it is now is %x", edit, vfirst(vf), want), rep)
+			}
+			if serr != nil || len(g2.calls) != 1 || !bytes.Equal(g2.calls[0], want) {
+				c.Fail("C10/structure", fmt.Sprintf("the parent's %s was changed between two uses of the same parent object: the countersigner was handed %x (%v), the structure over the parent as it is now is %x", edit, g2.calls, serr, want), rep)
+			}
+			if err0 != nil || len(g0.calls) != 1 || !bytes.Equal(g0.calls[0], want0) {
+				c.Fail("C10/structure0", fmt.Sprintf("the parent's %s was changed between two uses of the same parent object: the abbreviated countersigner was handed %x (%v), expected %x", edit, g0.calls, err0, want0), rep)
 			}
 		}
 	}
@@ -945,6 +1046,7 @@ func runC11(c *Collector, r *Rng, thorough bool) {
 	}
 	c11MalformedVerifierKey(c, r)
 	c11Positional(c, r)
+	c11OneSignerManySlots(c, r)
 }
 
 // c11MalformedVerifierKey: a verifier built from a malformed EdDSA public key (wrong length: NewVerifier looks at
@@ -1594,6 +1696,84 @@ func runC20(c *Collector, r *Rng, thorough bool) {
 			}
 		}
 	}
+	// ---- keys behind an opaque crypto.Signer that read the entropy source they are handed (a hedged-EdDSA token, an
+	// ECDSA or RSA module that draws its nonce / salt from the caller's source): a source that fails, is dry, or is not
+	// handed over at all makes the signing call fail with the source's error, for every algorithm family ----
+	{
+		kr3 := NewRng(4345)
+		ek3, _ := ecdsa.GenerateKey(elliptic.P256(), kr3)
+		_, ed3, _ := ed25519.GenerateKey(kr3)
+		rk3, _ := realKeySet(r)[4].priv.(*rsa.PrivateKey)
+		for _, kc := range []struct {
+			name string
+			alg  cose.Algorithm
+			key  crypto.Signer
+		}{{"EdDSA", cose.AlgorithmEdDSA, ed3}, {"ES256", cose.AlgorithmES256, ek3}, {"PS256", cose.AlgorithmPS256, rk3}} {
+			if kc.name == "PS256" && rk3 == nil {
+				continue
+			}
+			for _, src := range []string{"failing", "dry"} {
+				ek := &entropyReadingSigner{real: kc.key}
+				signer, err := cose.NewSigner(kc.alg, ek)
+				if err != nil {
+					continue
+				}
+				entropy := func() io.Reader {
+					if src == "failing" {
+						return &failingReader{n: 0, r: r, err: errScripted}
+					}
+					return bytes.NewReader(nil)
+				}
+				rep := map[string]any{"alg": kc.name, "source": src}
+				for _, cl := range []struct {
+					name string
+					run  func() (bool, error)
+				}{
+					{"Sign1Message.Sign", func() (bool, error) {
+						m := &cose.Sign1Message{Headers: hdr(kc.alg), Payload: []byte("p")}
+						e := m.Sign(entropy(), nil, signer)
+						_, me := m.MarshalCBOR()
+						return len(m.Signature) > 0 || me == nil, e
+					}},
+					{"Sign1", func() (bool, error) {
+						out, e := cose.Sign1(entropy(), signer, hdr(kc.alg), []byte("p"), nil)
+						return out != nil, e
+					}},
+					{"SignMessage.Sign", func() (bool, error) {
+						sm := &cose.SignMessage{Headers: cose.Headers{}, Payload: []byte("p"), Signatures: []*cose.Signature{{Headers: hdr(kc.alg)}}}
+						e := sm.Sign(entropy(), nil, signer)
+						_, me := sm.MarshalCBOR()
+						return len(sm.Signatures[0].Signature) > 0 || me == nil, e
+					}},
+					{"Countersignature.Sign", func() (bool, error) {
+						cs := &cose.Countersignature{Headers: hdr(kc.alg)}
+						e := cs.Sign(entropy(), signer, &cose.Sign1Message{Headers: hdr(kc.alg), Payload: []byte("p"), Signature: []byte{1}}, nil)
+						return len(cs.Signature) > 0, e
+					}},
+					{"Countersign0", func() (bool, error) {
+						out, e := cose.Countersign0(entropy(), signer, &cose.Sign1Message{Headers: hdr(kc.alg), Payload: []byte("p"), Signature: []byte{1}}, nil)
+						return len(out) > 0, e
+					}},
+					{"SignHashEnvelope", func() (bool, error) {
+						out, e := cose.SignHashEnvelope(entropy(), signer, hdr(kc.alg), cose.HashEnvelopePayload{HashAlgorithm: cose.AlgorithmSHA256, HashValue: make([]byte, 32)})
+						return out != nil, e
+					}},
+				} {
+					ek.sawNil, ek.calls = false, 0
+					var usable bool
+					var cerr error
+					if p, _ := protect(func() { usable, cerr = cl.run() }); p {
+						c.Fail("C20/panic", cl.name+" panicked with a key that reads the entropy source", rep)
+						continue
+					}
+					c.Eval("entropy-reading-key/"+kc.name+"/"+src, cl.name, true)
+					if cerr == nil || usable {
+						c.Fail("C20/entropy-error-swallowed", fmt.Sprintf("%s with a key that reads the caller's entropy source (%s): the call returned err=%v and a usable result=%v; the key was handed no source at all=%v", cl.name, src, cerr, usable, ek.sawNil), rep)
+					}
+				}
+			}
+		}
+	}
 	// ---- entropy failures with real keys ----
 	kr := NewRng(99)
 	ek, _ := ecdsa.GenerateKey(elliptic.P256(), kr)
@@ -1819,7 +1999,7 @@ func c11Positional(c *Collector, r *Rng) {
 				for j := 0; j < n; j++ {
 					h := cose.Headers{Protected: cose.ProtectedHeader{cose.HeaderLabelAlgorithm: s.alg}}
 					if !sameHeaders {
-						h.Protected[int64(4)] = []byte(fmt.Sprintf("signer-%d", j))
+						h.Protected[int64(4)] = []byte(fmt.Sprintf("signer-%d", 9-j)) // later signers encode to smaller bytes
 					}
 					m.Signatures = append(m.Signatures, &cose.Signature{Headers: h})
 				}
@@ -1865,6 +2045,15 @@ func c11Positional(c *Collector, r *Rng) {
 				if b, err := m.MarshalCBOR(); err == nil {
 					var back cose.SignMessage
 					if back.UnmarshalCBOR(b) == nil {
+						if err := back.Verify(ext, s.verif[:n]...); err != nil {
+							c.Fail("C11/valid-refused", "a decoded COSE_Sign does not verify with the verifiers in the order the signers signed: "+err.Error(), map[string]any{"alg": s.alg.String(), "data": hx(b)})
+						}
+						for j, sg := range back.Signatures {
+							if j < len(m.Signatures) && !bytes.Equal(sg.Signature, m.Signatures[j].Signature) {
+								c.Fail("C11/accepted-reordered", fmt.Sprintf("after the wire round trip position %d holds another signer's signature", j), map[string]any{"alg": s.alg.String(), "data": hx(b)})
+								break
+							}
+						}
 						vs := append([]cose.Verifier{}, s.verif[:n]...)
 						vs[0], vs[1] = vs[1], vs[0]
 						if back.Verify(ext, vs...) == nil {
@@ -1951,6 +2140,107 @@ func (f *revocableSigner) Sign(rnd io.Reader, digest []byte, opts crypto.SignerO
 	f.calls++
 	if f.revoked {
 		return nil, errScripted
+	}
+	return f.real.Sign(rnd, digest, opts)
+}
+
+func vsig(v *spyVerifier) []byte {
+	if len(v.calls) == 0 {
+		return nil
+	}
+	return v.calls[0].sig
+}
+
+// c11OneSignerManySlots: one Signer value (plain key, or a key behind an opaque crypto.Signer) fills several slots of a
+// COSE_Sign whose signers have different protected headers, then signs a second message: every slot holds a signature
+// over its own structure (verified by the standard library), in memory and after the wire round trip, and stays what
+// it was when the signer is used again.
+func c11OneSignerManySlots(c *Collector, r *Rng) {
+	keys := append(append([]realKey{}, realKeySet(r)...), opaqueKeySet(r)...)
+	for _, k := range keys {
+		signer := k.signer()
+		build := func(tag string, n int) *cose.SignMessage {
+			m := &cose.SignMessage{Headers: cose.Headers{Protected: cose.ProtectedHeader{int64(4): []byte("body" + tag)}}, Payload: []byte("payload" + tag)}
+			for j := 0; j < n; j++ {
+				m.Signatures = append(m.Signatures, &cose.Signature{Headers: cose.Headers{Protected: cose.ProtectedHeader{cose.HeaderLabelAlgorithm: k.alg, int64(4): []byte(fmt.Sprintf("signer-%d%s", j, tag))}}})
+			}
+			return m
+		}
+		for n := 2; n <= 3; n++ {
+			m1 := build("-a", n)
+			ext := []byte("ext")
+			var sgs []cose.Signer
+			var vfs []cose.Verifier
+			for j := 0; j < n; j++ {
+				sgs = append(sgs, signer)
+				vfs = append(vfs, k.verifier())
+			}
+			rep := map[string]any{"key": k.name, "alg": k.alg.String(), "slots": n}
+			if err := m1.Sign(r, ext, sgs...); err != nil {
+				continue
+			}
+			c.Eval("one-signer-many-slots/"+k.name+"/"+k.alg.String(), fmt.Sprint(n), true)
+			check := func(when string, m *cose.SignMessage) bool {
+				for j, s := range m.Signatures {
+					want, _ := refSigN(&m.Headers, &s.Headers, ext, m.Payload)
+					if !refVerify(k.alg, k.pub, want, s.Signature) {
+						c.Fail("C11/slot-not-own-signature", fmt.Sprintf("%s: slot %d of %d (all filled by one Signer value) does not hold a signature over its own Sig_structure", when, j, n), rep)
+						return false
+					}
+				}
+				return true
+			}
+			if !check("after Sign", m1) {
+				continue
+			}
+			if err := m1.Verify(ext, vfs...); err != nil {
+				c.Fail("C11/valid-refused", "a COSE_Sign whose slots were all filled by one Signer value does not verify: "+err.Error(), rep)
+				continue
+			}
+			held := make([][]byte, n)
+			for j, s := range m1.Signatures {
+				held[j] = append([]byte{}, s.Signature...)
+			}
+			m2 := build("-b", n)
+			if err := m2.Sign(r, ext, sgs...); err == nil {
+				check("second message", m2)
+			}
+			for j, s := range m1.Signatures {
+				if !bytes.Equal(held[j], s.Signature) {
+					c.Fail("C11/slot-not-own-signature", fmt.Sprintf("signature %d of the first message changed when the same Signer value signed a second message", j), rep)
+					break
+				}
+			}
+			if b, err := m1.MarshalCBOR(); err == nil {
+				var back cose.SignMessage
+				if back.UnmarshalCBOR(b) == nil {
+					if err := back.Verify(ext, vfs...); err != nil {
+						c.Fail("C11/valid-refused", "after the wire round trip: "+err.Error(), rep)
+					}
+				}
+			}
+		}
+	}
+}
+
+// entropyReadingSigner: a real key behind a crypto.Signer that first draws 32 octets from the entropy source it is
+// handed and fails when it cannot
+type entropyReadingSigner struct {
+	real   crypto.Signer
+	sawNil bool
+	calls  int
+}
+
+func (f *entropyReadingSigner) Public() crypto.PublicKey { return f.real.Public() }
+func (f *entropyReadingSigner) Sign(rnd io.Reader, digest []byte, opts crypto.SignerOpts) ([]byte, error) {
+	f.calls++
+	if rnd == nil {
+		f.sawNil = true
+		rnd = crand.Reader
+	}
+	var nonce [32]byte
+	if _, err := io.ReadFull(rnd, nonce[:]); err != nil {
+		return nil, err
 	}
 	return f.real.Sign(rnd, digest, opts)
 }
